@@ -332,20 +332,51 @@ struct RangeTransform : public transform {
     return lp;
   }
 };
-static void run_cxx_apply(Ctx &c) {
-  int dims = c.chance(64) ? 2 : 1;
-  Range rr[2] = {Range(0, 1), Range(0, 1)};
-  RangeTransform tr;
-  std::vector<double> d[2];
-  bool longrun = c.chance(10);
-  for (int i = 0; i < dims; i++) {
-    tr.r.push_back(draw_range(c, rr[i]));
-    d[i] = draw_data(c, tr.r[i], longrun, i ? d[0].size() : 0);
+// What polyline makes of a list of parts (polyline::part::points(), apply_data(), apply<>()): part k starts at the sum of
+// the earlier `raw`, covers `usr` points from there, and its first / last point is not a point of the line but the place
+// where it is cut when _cut / _trim is not zero. So the points drawn are [o + (cut ? 1 : 0), o + usr - (trim ? 1 : 0)).
+// Statement for any number of coordinates: a point is drawn exactly once iff it is in range in every dimension applied,
+// and never otherwise (an out-of-range end point of a window therefore has to carry a non-zero fraction).
+static void check_drawn(Ctx &c, const char *stage, size_t N, const std::vector<linepart> &parts, const std::vector<uint8_t> &visible) {
+  std::vector<uint8_t> drawn(N, 0);
+  size_t off = 0;
+  for (size_t k = 0; k < parts.size(); k++) {
+    const linepart &lp = parts[k];
+    VP_CHECK(c, off + lp.raw <= N, "raw-sum", "%s part %zu at %zu: raw %u runs past the %zu input points", stage, k, off, lp.raw, N);
+    VP_CHECK(c, off + lp.usr <= N, "window-beyond-data", "%s part %zu at %zu: usr %u runs past the %zu input points", stage, k, off, lp.usr, N);
+    size_t ends = (lp._cut ? 1 : 0) + (lp._trim ? 1 : 0);
+    VP_CHECK(c, lp.usr >= ends, "fraction-on-empty-part", "%s part %zu at %zu: raw %u usr %u cut %u trim %u — polyline::part::points() computes a length of %ld", stage, k, off, lp.raw, lp.usr,
+             lp._cut, lp._trim, (long)lp.usr - (long)ends);
+    for (size_t j = lp._cut ? 1 : 0; j + (lp._trim ? 1 : 0) < lp.usr; j++) {
+      size_t i = off + j;
+      if (!visible[i]) {
+        bool end = j == 0 || j + 1 == lp.usr;
+        c.fail(end ? "end-point-without-fraction" : "drawn-outside-interior", "%s part %zu at %zu (raw %u usr %u cut %u trim %u): point %zu is out of range in some dimension and %s", stage, k, off,
+               lp.raw, lp.usr, lp._cut, lp._trim, i, end ? "ends the drawn window without a cut/trim fraction" : "lies inside the drawn window");
+      }
+      if (drawn[i] < 2) ++drawn[i];
+    }
+    off += lp.raw;
   }
+  VP_CHECK(c, off == N, "raw-sum", "%s: the parts cover %zu of %zu input points", stage, off, N);
+  for (size_t i = 0; i < N; i++) {
+    if (!visible[i]) continue;
+    VP_CHECK(c, drawn[i] != 0, "in-range-not-drawn", "%s: point %zu is in range in every dimension but is not drawn", stage, i);
+    VP_CHECK(c, drawn[i] == 1, "in-range-drawn-twice", "%s: point %zu is drawn by more than one part", stage, i);
+  }
+}
+
+// linepart::array::apply() dimension by dimension the way polyline::set does it; `preset`: start from set(N)
+// (polyline::set) or from an empty array
+static void apply_scenario(Ctx &c, int dims, const Range *const *ranges, const std::vector<double> *d, bool preset) {
+  RangeTransform tr;
+  for (int i = 0; i < dims; i++) tr.r.push_back(ranges[i]);
   size_t N = d[0].size();
   if (!N) return;
   linepart::array vis;
-  VP_CHECK(c, vis.set((long)N), "cxx-set-sum", "set(%zu) failed", N);
+  if (preset) VP_CHECK(c, vis.set((long)N), "cxx-set-sum", "set(%zu) failed", N);
+  c.logf("%s", preset ? "linepart::array::set(N), then apply per dimension" : "empty linepart::array, apply per dimension");
+  std::vector<uint8_t> visible(N, 1);
   for (int i = 0; i < dims; i++) {
     if (c.verbose()) {
       if (tr.r[i]) c.logf("dim %d: range [%.17g, %.17g] N=%zu", i, tr.r[i]->min, tr.r[i]->max, N);
@@ -358,23 +389,46 @@ static void run_cxx_apply(Ctx &c) {
     VP_CHECK(c, ok, "cxx-apply-refused", "linepart::array::apply(dim %d, %zu points) failed", i, N);
     std::vector<linepart> parts(vis.begin(), vis.end());
     for (size_t k = 0; k < parts.size() && k < 64; k++) c.logf("  after dim %d: part %zu raw %u usr %u cut %u trim %u", i, k, parts[k].raw, parts[k].usr, parts[k]._cut, parts[k]._trim);
-    if (i == 0) {
-      check_parts(c, "cxx-apply", d[0], tr.r[0], parts);
-    } else {
-      // several coordinates: only the statement about the points covered is checked (the fractions of
-      // different dimensions are merged heuristically by the library)
-      size_t off = 0;
-      for (size_t k = 0; k < parts.size(); k++) {
-        VP_CHECK(c, off + parts[k].usr <= N, "window-beyond-data", "cxx-apply dim %d part %zu at %zu: usr %u runs past the %zu points", i, k, off, parts[k].usr, N);
-        off += parts[k].raw;
-      }
-      VP_CHECK(c, off == N, "raw-sum", "cxx-apply dim %d: the parts cover %zu of %zu points", i, off, N);
-    }
+    // first coordinate: the complete single-run oracle incl. the fractions (later ones are merged heuristically by the library)
+    if (i == 0) check_parts(c, "cxx-apply", d[0], tr.r[0], parts);
+    for (size_t k = 0; k < N; k++) if (!in_range(d[i][k], tr.r[i])) visible[k] = 0;
+    check_drawn(c, i ? "cxx-apply (2 dimensions)" : "cxx-apply", N, parts, visible);
     c.count("cxx-apply:parts", parts.size());
     for (const linepart &lp : parts) if (lp._cut || lp._trim) { c.label("cxx-apply:crossing"); c.nontrivial(); break; }
+    if (i) for (const linepart &lp : parts) if (lp.usr && lp.usr < lp.raw && lp._trim) { c.label("cxx-apply:2-dim-trim-before-skipped"); break; }
   }
   c.label(dims == 2 ? "cxx-apply:2-dim" : "cxx-apply:1-dim");
+  if (!preset) c.label("cxx-apply:fresh-array");
   if (N > 65533) { c.label("cxx-apply:multi-chunk"); c.nontrivial(); }
+}
+
+static void run_cxx_apply(Ctx &c) {
+  int dims = c.chance(64) ? 2 : 1;
+  Range rr[2] = {Range(0, 1), Range(0, 1)};
+  const Range *ranges[2] = {0, 0};
+  std::vector<double> d[2];
+  bool longrun = c.chance(10);
+  for (int i = 0; i < dims; i++) {
+    ranges[i] = draw_range(c, rr[i]);
+    d[i] = draw_data(c, ranges[i], longrun, i ? d[0].size() : 0);
+  }
+  // no draw of its own (committed inputs keep their decoding): one coordinate always starts from set(N)
+  bool preset = dims == 1 || ((c.hash() >> 11) & 1);
+  apply_scenario(c, dims, ranges, d, preset);
+}
+
+// ---- enumerated: two coordinates, x over {below, inside, above}, y over {inside, above}, range [1,3] for both
+static void run_cxx_enum(Ctx &c) {
+  static const double X[3] = {0, 2, 4}, Y[2] = {2, 4};
+  Range rx(1, 3), ry(1, 3);
+  const Range *ranges[2] = {&rx, &ry};
+  bool preset = c.pick(2);
+  size_t n = c.pick(9);
+  std::vector<double> d[2];
+  for (size_t i = 0; i < n; i++) { d[0].push_back(X[c.pick(3)]); d[1].push_back(Y[c.pick(2)]); }
+  c.label("enum:cxx-apply-2-dim");
+  apply_scenario(c, 2, ranges, d, preset);
+  c.nontrivial();
 }
 
 // ---- enumerated: sequences over {below, at-min, inside, at-max, above} for the range [1,3]
@@ -505,6 +559,7 @@ static void run(Ctx &c) {
   if (sel >= 176 && sel < 206) return run_cxx_apply(c);
   if (sel == 0xff) return run_alphabet(c);
   if (sel == 0xfe) return run_longenum(c);
+  if (sel == 0xfd) return run_cxx_enum(c);
   if (sel >= 236) return run_code(c);
   if (sel >= 216) return run_join_records(c);
   run_random(c);
@@ -535,6 +590,20 @@ static void long_make(uint64_t idx, int, std::vector<uint8_t> &out) {
   for (int i = 0; i < 4; i++) { out.push_back((uint8_t)(idx % 3)); idx /= 3; }
 }
 
+// two coordinates: (x,y) pairs over 3 x 2 classes, length <= 6 (thorough 7), from set(N) and from an empty array
+static uint64_t pow6sum(int maxlen) { uint64_t s = 0, p = 1; for (int i = 0; i <= maxlen; i++) { s += p; p *= 6; } return s; }
+static uint64_t cxx2_count(int tier) { return 2 * pow6sum(tier ? 7 : 6); }
+static void cxx2_make(uint64_t idx, int, std::vector<uint8_t> &out) {
+  out.clear();
+  out.push_back(0xfd);
+  out.push_back((uint8_t)(idx % 2)); idx /= 2;
+  size_t n = 0;
+  uint64_t span = 1;
+  while (idx >= span) { idx -= span; span *= 6; ++n; }
+  out.push_back((uint8_t)n);
+  for (size_t i = 0; i < n; i++) { out.push_back((uint8_t)(idx % 3)); out.push_back((uint8_t)((idx / 3) % 2)); idx /= 6; }
+}
+
 static Target t = {
     "C18",
     "random: range (normal | min==max | min>max | one/both sides infinite | none) x run-length structured real sequence (below/at-min/inside/at-max/above realised next to, on and far "
@@ -549,7 +618,8 @@ static Target t = {
     true,
     {{"sequences len<=8 (9) over 5 classes, whole remainder", alpha_count, alpha_make},
      {"sequences len<=6 (8) over 5 classes x 1..3 points per call", chunk_count, chunk_make},
-     {"run lengths 65533..65537 x 81 head/body/tail patterns", long_count, long_make}},
+     {"run lengths 65533..65537 x 81 head/body/tail patterns", long_count, long_make},
+     {"two coordinates: (x,y) sequences len<=6 (7) over {below,inside,above}x{inside,above}, from set(N) and from an empty array", cxx2_count, cxx2_make}},
     0,
     0,
 };
